@@ -17,6 +17,7 @@ import (
 	"time"
 
 	"berty.tech/go-ipfs-log/entry"
+	"berty.tech/go-ipfs-log/iface"
 )
 
 type hookWaiter struct {
@@ -32,6 +33,10 @@ type FetchDriver struct {
 	Name   func(string) string
 	Cancel func() // optional: cancels the fetch context
 	// policy knobs
+	// Progress, if non-nil, is handed to the load as its FetchOptions.ProgressChan (unbuffered): the
+	// application's listener is the driver, which takes one item when the tape says so
+	Progress   chan iface.IPFSLogEntry
+	Consumed   int
 	HookBias   int // 0 uniform, 1 admit finished workers eagerly, 2 release gets first
 	CancelRate int // per-step chance (in 1/1000) to cancel when Cancel != nil; 0 = only when stuck
 	MaxSteps   int
@@ -44,6 +49,7 @@ type FetchDriver struct {
 	MainSemBlocked int // how often main was found blocked on the semaphore at quiescence
 	Leaked         int
 	fnGoid         atomic.Int64
+	fetcherMu      atomic.Pointer[sync.RWMutex]
 }
 
 // Tainted is set when a run leaves goroutines behind that cannot be released (a fetch that
@@ -54,6 +60,25 @@ var activeDrv atomic.Pointer[FetchDriver]
 
 func init() {
 	entry.VerifYield = fetchHook
+	entry.VerifFetcherLock = func(mu *sync.RWMutex) {
+		if d := activeDrv.Load(); d != nil {
+			d.fetcherMu.Store(mu)
+		}
+	}
+}
+
+// fetcherLockFree probes (TryLock, released at once) the mutex of the fetcher created last under this
+// driver. Only called at quiescence: every goroutine of the fetch is parked, so the answer is stable.
+func (d *FetchDriver) fetcherLockFree() bool {
+	mu := d.fetcherMu.Load()
+	if mu == nil {
+		return false
+	}
+	if mu.TryLock() {
+		mu.Unlock()
+		return true
+	}
+	return false
 }
 
 func fetchHook(site string) {
@@ -90,6 +115,8 @@ type quiesce struct {
 	gets     int
 	hooks    int
 	stalled  int
+	progress int // workers blocked handing an entry to the progress listener
+	lockWait int // goroutines waiting for the fetcher's mutex (legitimate only while such a worker holds it)
 }
 
 type gInfo struct {
@@ -181,6 +208,10 @@ func (d *FetchDriver) snapshot() (q quiesce, ok bool) {
 			q.mainCond = true
 		case g.state == "select" && hasFrame(g, "semaphore.(*Weighted).Acquire") && hasFrame(g, "(*Fetcher).processQueue"):
 			q.mainSem = true
+		case g.state == "chan send" && d.Progress != nil && hasFrame(g, "(*Fetcher).processQueue"):
+			q.progress++
+		case (strings.HasPrefix(g.state, "sync.RWMutex.") || g.state == "sync.Mutex.Lock") && d.Progress != nil && hasFrame(g, "(*Fetcher).processQueue"):
+			q.lockWait++
 		default:
 			ok = false
 		}
@@ -204,7 +235,7 @@ func (d *FetchDriver) waitQuiescent(done chan struct{}) quiesce {
 				return quiesce{done: true}
 			default:
 			}
-			if q.mainCond || q.mainSem || q.gets+q.stalled+q.hooks > 0 {
+			if q.mainCond || q.mainSem || q.gets+q.stalled+q.hooks+q.progress > 0 {
 				return q
 			}
 		}
@@ -267,6 +298,14 @@ func (d *FetchDriver) Run(fn func()) {
 		}
 		d.waiters = nil
 		d.mu.Unlock()
+		for drained := d.Progress == nil; !drained; {
+			select {
+			case <-d.Progress: // a worker that outlived its fetch (defective library): let it go
+				d.Leaked++
+			default:
+				drained = true
+			}
+		}
 		d.St.mu.Lock()
 		d.St.Parked = false
 		d.St.mu.Unlock()
@@ -295,10 +334,16 @@ func (d *FetchDriver) Run(fn func()) {
 			}
 			return hooks[i].seq < hooks[j].seq
 		})
-		canAdmit := q.mainCond && len(hooks) > 0
+		// with a progress listener a worker may be parked (holding the fetcher's mutex) in the hand-over of an
+		// entry; other requests may still be completed
+		// Determinism: a finished worker is let into the critical section only when nobody else can be
+		// after the same mutex - the dispatcher waits in its condition variable and no worker sits in the
+		// hand-over holding it. If a worker sits in the hand-over and the mutex is nevertheless free
+		// (probed), others may go ahead: that order is then as legal and as repeatable as any.
+		canAdmit := len(hooks) > 0 && ((q.mainCond && q.progress == 0) || (q.progress > 0 && d.fetcherLockFree()))
 		// decide
 		type act struct {
-			kind int // 0 get, 1 hook, 2 cancel
+			kind int // 0 get, 1 hook, 2 cancel, 3 take one progress item
 			i    int
 		}
 		var acts []act
@@ -319,6 +364,9 @@ func (d *FetchDriver) Run(fn func()) {
 					acts = append(acts, act{1, i})
 				}
 			}
+		}
+		if q.progress > 0 {
+			acts = append(acts, act{3, 0})
 		}
 		if d.Cancel != nil && !d.Cancelled && d.CancelRate > 0 && d.R.Choose("cancel?", 1000) < d.CancelRate {
 			acts = []act{{2, 0}}
@@ -356,6 +404,14 @@ func (d *FetchDriver) Run(fn func()) {
 			}
 			d.mu.Unlock()
 			close(w.gate)
+		case 3:
+			select {
+			case e := <-d.Progress:
+				d.Consumed++
+				d.R.Logf("  fetch: progress listener takes %s", d.Name(e.GetHash().String()))
+			default:
+				panic(&harnessError{"fetch driver: a worker is parked in the progress hand-over but nothing can be received"})
+			}
 		case 2:
 			d.R.Logf("  fetch: cancel context")
 			d.R.Fault("cancel")
